@@ -86,11 +86,21 @@ impl AppendTextComment {
                     content,
                     close_comment
                 )
+            } else if is_long_bracket_start(&content) {
+                // `--[[` would open a long comment that the text does not close
+                format!("-- {}", content)
             } else {
                 format!("--{}", content)
             }
         })
     }
+}
+
+fn is_long_bracket_start(content: &str) -> bool {
+    content
+        .strip_prefix('[')
+        .map(|rest| rest.trim_start_matches('=').starts_with('['))
+        .unwrap_or(false)
 }
 
 impl Rule for AppendTextComment {
